@@ -68,6 +68,8 @@ SPECS = {
               'final': 'cs_final1', 'covers': [13]},
     'cas_aba': {'name': 'cas_aba', 'setup': 'cs_setup_pool', 'threads': [(W, 'cs_w_cas01'), (W, 'cs_w_swap2_store0')],
                 'final': 'cs_final_cas', 'covers': [13]},
+    'cas3': {'name': 'cas3', 'setup': 'cs_setup_pool', 'threads': [(W, 'cs_w_cas01'), (W, 'cs_w_swap_pool2_rec'), (W, 'cs_w_swap_pool0_rec')],
+             'final': 'cs_final_cas3', 'covers': [13]},
     'rcu2': {'name': 'rcu2', 'setup': 'cs_setup_pool', 'threads': [(W, 'cs_w_rcu_t1'), (W, 'cs_w_rcu_t2')],
              'final': 'cs_final_rcu2', 'covers': [13]},
     'moved_guard': {'name': 'moved_guard', 'setup': 'cs_setup1', 'threads': [('cs_park_t1', 'cs_w_store1'), (W, 'cs_drop_parked')],
